@@ -70,6 +70,9 @@ def batch_members():
             for c in sorted(os.listdir(pdir)):
                 if os.path.isfile(os.path.join(pdir, c, "Cargo.toml")):
                     out.append("batch/%s/%s" % (prof, c))
+    for extra in ("c17/s2", "c17/drv"):
+        if os.path.isfile(os.path.join(WS, extra, "Cargo.toml")):
+            out.append(extra)
     return out
 
 
